@@ -20,6 +20,10 @@ Tables ==
     [name |-> "string_literal",   side |-> "express", cap |-> 1024,  guard |-> "dynamic"],
     [name |-> "paren_depth",      side |-> "express", cap |-> 100,   guard |-> "dynamic"],
     [name |-> "attr_count",       side |-> "express", cap |-> 200,   guard |-> "dynamic"],
+    \* exppp's in-memory string mode (exp2cxx prints every rule, initialiser and algorithm body through it): one piece of
+    \* text per WHERE rule / function, in a buffer of 100000 bytes that is grown on demand
+    [name |-> "rendered_where",   side |-> "express", cap |-> 100000, guard |-> "dynamic"],
+    [name |-> "rendered_function", side |-> "express", cap |-> 100000, guard |-> "dynamic"],
     [name |-> "real_token",       side |-> "p21",     cap |-> 64,    guard |-> "dynamic"],   \* read_func.cc ReadReal
     [name |-> "int_token",        side |-> "p21",     cap |-> 64,    guard |-> "dynamic"],
     [name |-> "string_value",     side |-> "p21",     cap |-> 8192,  guard |-> "dynamic"],   \* BUFSIZ-sized scratch buffers
